@@ -546,6 +546,9 @@ func (m *Machine) isConcreteKey(v Value) bool {
 
 // mapFind returns the index of key, forking on symbolic equalities.
 func (m *Machine) mapFind(mp *MapV, key Value) int {
+	if m.tl != nil && mp != nil {
+		m.access(mp, false)
+	}
 	for i := range mp.Entries {
 		e := m.equal(mp.Entries[i].K, key)
 		if e.IsConst() {
@@ -568,6 +571,9 @@ func (m *Machine) mapSet(mp *MapV, key, val Value) {
 		}
 	}
 	i := m.mapFind(mp, key)
+	if m.tl != nil {
+		m.access(mp, true)
+	}
 	if i >= 0 {
 		mp.Entries[i].V = copyVal(val)
 		return
@@ -584,6 +590,9 @@ func (m *Machine) mapDelete(mp *MapV, key Value) {
 		if what, ok := m.watchMaps[mp]; ok {
 			m.watchHits = append(m.watchHits, what)
 		}
+	}
+	if m.tl != nil {
+		m.access(mp, true)
 	}
 	mp.Entries[i].deleted = true
 	mp.Entries = append(mp.Entries[:i:i], mp.Entries[i+1:]...)
